@@ -758,18 +758,23 @@ impl Sim {
                             self.check(e, &sus, "notify_result")?;
                         }
                         Err(error) => {
-                            if let Some(p) = self.ex[e].get_process_mut(awaiter) {
-                                p.result = Some(Err(error));
-                                p.frames.clear();
+                            // worker.rs notify_result Err arm (09625d4): only an awaiter that still
+                            // awaits the failed process is failed; a stale failure only wakes it
+                            match self.ex[e].get_process_mut(awaiter) {
+                                Some(p) if p.awaiting.contains_key(&awaited) => {
+                                    p.result = Some(Err(error));
+                                    p.frames.clear();
+                                }
+                                _ => self.ex[e].wake_selecting(awaiter),
                             }
-                            let o = format!("(fail {} {})", e, awaiter);
+                            let o = format!("(fail {} {} {})", e, awaiter, awaited);
                             self.emit(&o, e);
                             self.check(e, &sus, "notify_result(Err)")?;
                         }
                     }
                 }
                 if !any {
-                    self.ex[e].mark_active(awaiter);
+                    self.ex[e].wake_selecting(awaiter); // update_await_results (09625d4)
                 }
             }
         }
